@@ -86,7 +86,7 @@ class C15(Property):
         "20-80 ms, which forces the workers to finish in that order. The harness swaps droplets.image_analysis.refine_droplet "
         "(resp. locate_droplets, looked up at call time) for a module-level wrapper that sleeps and then calls the original; the "
         "delay table exists in every forked worker. Checked calls: locate_droplets(refine=True, num_processes=n), refine_droplets("
-        "candidates, num_processes=n) and EmulsionTimeCourse.from_storage(num_processes=n) on storages of 2-6 frames (some with a "
+        "candidates, num_processes=n) EmulsionTimeCourse.from_storage(num_processes=n) and DropletTrackList.from_storage(num_processes=n) on storages of 2-6 frames (some with a "
         "repeated time stamp). Oracle: identical length, order, classes and record bytes as the serial run; two serial runs are "
         "byte-identical. Thorough tier additionally enumerates all 24 completion orders of 4 tasks. Non-trivial = >= 2 tasks and a "
         "delay order that reverses at least one pair; distinct = distinct spec hash."
@@ -195,6 +195,21 @@ class C15(Property):
         ia.locate_droplets = H.delayed_locate
         par = EmulsionTimeCourse.from_storage(st_, num_processes=nproc, **kw)
         ctx.require(rec(par) == rec(base), f"storage:parallel-differs:procs={nproc}", f"from_storage(num_processes={nproc}) differs from the serial result (times {par.times} vs {base.times}; sizes {[len(e) for e in par.emulsions]} vs {[len(e) for e in base.emulsions]}; completion ranks {ranks})")
+        # droplet tracks obtained directly from the storage (documented default threshold) - serial vs parallel vs two steps
+        from droplets import DropletTrackList
+
+        def trec(tl):
+            return [([float(t) for t in tr.times], em_records(tr.droplets)) for tr in tl]
+
+        method = "overlap" if spec["seed"] % 2 == 0 else "distance"
+        ia.locate_droplets = H._orig_locate
+        tl_ser = DropletTrackList.from_storage(st_, method=method, refine=spec["refine"], num_processes=1, progress=False)
+        etc_def = EmulsionTimeCourse.from_storage(st_, refine=spec["refine"], num_processes=1, progress=False)
+        tl_two = DropletTrackList.from_emulsion_time_course(etc_def, method=method, progress=False)
+        ctx.require(trec(tl_ser) == trec(tl_two), "tracks-from-storage:differs-from-two-steps", f"DropletTrackList.from_storage differs from tracking the time course obtained from the same storage ({len(tl_ser)} vs {len(tl_two)} tracks)")
+        ia.locate_droplets = H.delayed_locate
+        tl_par = DropletTrackList.from_storage(st_, method=method, refine=spec["refine"], num_processes=nproc, progress=False)
+        ctx.require(trec(tl_par) == trec(tl_ser), f"tracks-from-storage:parallel-differs:procs={nproc}", f"DropletTrackList.from_storage(num_processes={nproc}) differs from the serial result ({len(tl_par)} vs {len(tl_ser)} tracks; completion ranks {ranks})")
 
 
 PROP = C15()
